@@ -8,7 +8,7 @@ ID = "C20"
 RULE = ("E-FULL: int2name(i) for every i in the index range compared in order with the "
         "shortlex enumeration of non-empty A-Z strings (itertools.product); every 3-digit "
         "code over 0-9a-fA-F and every 6-digit code over the tier's digit set, with and "
-        "without '#', through hex2rgb/hex2rgbstr/hex2html against int(.,16); for all 4096 three-digit codes a back-to-back call sequence of codes sharing a numeric value or prefix; one TikZ document with 750 (thorough 3000) labels whose macro names must be the shortlex names, pairwise distinct. Non-trivial: "
+        "without '#', through hex2rgb/hex2rgbstr/hex2html against int(.,16); for all 4096 three-digit codes a back-to-back call sequence of codes sharing a numeric value or prefix; TikZ documents with 750 and 18300 (thorough 3000 and 19000) labels whose macro names must be the shortlex names, pairwise distinct. Non-trivial: "
         "multi-letter names (a carry happened) / codes containing a letter digit.")
 ASSUMPTIONS = ["int(s, 16) and itertools.product are the trusted reference",
                "codes outside 3/6 hex digits are outside the property"]
@@ -46,6 +46,7 @@ def plan(tier, seed):
     for d in range(16):
         shards.append(["adjacent", d])
     shards.append(["document", 750 if tier == "quick" else 3000])
+    shards.append(["document", 18300 if tier == "quick" else 19000])  # beyond the first four-letter name (index 18278)
     if tier == "thorough":
         for alpha in ("0123456789abcdef", "0123456789ABCDEF"):
             for d1 in range(16):
